@@ -51,7 +51,7 @@ PROFILES = {
 
 THEOREM_MODULE = {p: "Cobweb.Theorems.%s" % p for p in PROJ}
 
-N_QUICK = 240
+N_QUICK = 1500
 N_THOROUGH = 6000
 
 def project(pid, lines):
